@@ -22,11 +22,12 @@ VARIABLES l, nbad
 Obs == ndJsonDeserialize("obs.ndjson")
 Init == l = 1 /\ nbad = 0
 Next == l <= Len(Obs) /\ l' = l + 1 /\ nbad' = nbad + (IF RecOk(Obs[l]) THEN 0 ELSE 1)
-BadIdx == SelectSeq([k \in 1..Len(Obs) |-> k], LAMBDA k : ~RecOk(Obs[k]))
-Done == l = Len(Obs) + 1 =>
-          ndJsonSerialize("bad.ndjson",
-             IF nbad = 0 THEN <<>>
-             ELSE [j \in 1..(IF Len(BadIdx) < 400 THEN Len(BadIdx) ELSE 400) |->
-                     [k |-> BadIdx[j], id |-> Obs[BadIdx[j]].id, sig |-> Sig(Obs[BadIdx[j]]), nbad |-> nbad]])
+\* (operators with a parameter: a zero-argument definition would be evaluated eagerly at start-up, judging every
+\*  record twice; an operator argument is evaluated once)
+BadIdx(n) == SelectSeq([i \in 1..n |-> i], LAMBDA i : ~RecOk(Obs[i]))
+WriteBad(B) == ndJsonSerialize("bad.ndjson",
+                 [j \in 1..(IF Len(B) < 400 THEN Len(B) ELSE 400) |->
+                     [k |-> B[j], id |-> Obs[B[j]].id, sig |-> Sig(Obs[B[j]]), nbad |-> nbad]])
+Done == l = Len(Obs) + 1 => WriteBad(IF nbad = 0 THEN <<>> ELSE BadIdx(Len(Obs)))
 Consumed == TLCGet("stats").diameter - 1 = Len(Obs)
 =============================================================================
